@@ -45,6 +45,26 @@ type Run struct {
 	infra       []string
 	exhaustive  bool
 	distinct    map[string]struct{}
+	vioLog      []partialVio
+	capNotes    []string
+}
+
+type partialVio struct {
+	Key    string `json:"key"`
+	Msg    string `json:"msg"`
+	Replay any    `json:"replay"`
+}
+
+// partial is what a job child hands to its parent.
+type partial struct {
+	Counters    map[string]int64 `json:"counters"`
+	Cov         map[string]any   `json:"cov"`
+	Distinct    []string         `json:"distinct"`
+	Samples     []any            `json:"samples"`
+	Assumptions []string         `json:"assumptions"`
+	Violations  []partialVio     `json:"violations"`
+	Infra       []string         `json:"infra"`
+	CapNotes    []string         `json:"cap_notes"`
 }
 
 func verifRoot() string {
@@ -162,7 +182,8 @@ func (r *Run) Assume(s string) {
 func (r *Run) NotExhaustive(why string) {
 	r.mu.Lock()
 	r.exhaustive = false
-	r.cov["cap_hit"] = why
+	r.capNotes = append(r.capNotes, why)
+	r.cov["cap_hit"] = strings.Join(r.capNotes, "; ")
 	r.mu.Unlock()
 }
 
@@ -182,6 +203,22 @@ func (r *Run) Infra(format string, a ...any) {
 // infrastructure error instead of a violation.
 func (r *Run) Violation(key, msg string, replay any, recheck func() bool) {
 	key = strings.Join(strings.Fields(key), "_")
+	if _, child := IsShard(); child {
+		if recheck != nil {
+			for i := 0; i < 4; i++ {
+				if !recheck() {
+					r.Infra("case %s failed once but not on re-run %d: %s", key, i+1, msg)
+					return
+				}
+			}
+		}
+		r.mu.Lock()
+		if len(r.vioLog) < 64 {
+			r.vioLog = append(r.vioLog, partialVio{Key: key, Msg: msg, Replay: replay})
+		}
+		r.mu.Unlock()
+		return
+	}
 	r.mu.Lock()
 	if txt, ok := r.known[key]; ok {
 		first := !r.knownSeen[key]
@@ -224,8 +261,18 @@ func (r *Run) Violations() int {
 	return r.newViol
 }
 
-// Finish writes the evidence file and exits.
+// Finish writes the evidence file and exits. In a job child it hands the
+// collected state to the parent instead.
 func (r *Run) Finish() {
+	if _, child := IsShard(); child {
+		r.mu.Lock()
+		p := partial{Counters: r.counters, Cov: r.cov, Samples: r.samples, Assumptions: r.assumptions, Violations: r.vioLog, Infra: r.infra, CapNotes: r.capNotes}
+		for k := range r.distinct {
+			p.Distinct = append(p.Distinct, k)
+		}
+		r.mu.Unlock()
+		ShardReply(p)
+	}
 	r.mu.Lock()
 	cov := r.cov
 	for k, v := range r.counters {
@@ -277,6 +324,9 @@ func (r *Run) Finish() {
 	}
 	fmt.Printf("RESULT property=%s tier=%s exit=%d wall=%.1fs coverage=%s\n", r.Prop, r.Tier, code, ev.WallS, b)
 	os.Stdout.Sync()
+	if os.Getenv("VERIF_NOEXIT") != "" { // profiling runs only
+		return
+	}
 	os.Exit(code)
 }
 
@@ -389,3 +439,125 @@ func Scratch() string {
 
 // ReplayPath returns the file given with --replay, if any.
 func ReplayPath() string { return os.Getenv("VERIF_REPLAY") }
+
+// ---- job children ------------------------------------------------------------
+
+// Job reports the job index when this process is a job child.
+func Job() (int, bool) {
+	if part, ok := IsShard(); ok && strings.HasPrefix(part, "job:") {
+		n, err := strconv.Atoi(strings.TrimPrefix(part, "job:"))
+		return n, err == nil
+	}
+	return 0, false
+}
+
+// RunJobs runs jobs 0..n-1, each in its own child process of this test binary (so that process-global
+// bottlenecks such as the SQLite allocator lock do not serialise them), at most `parallel` at a time, and
+// merges what the children collected. The child calls r.Finish() after doing job Job().
+func (r *Run) RunJobs(n, parallel int, timeout time.Duration) {
+	if parallel <= 0 {
+		parallel = 1
+	}
+	sem := make(chan struct{}, parallel)
+	var wg sync.WaitGroup
+	replies := make([][]byte, n)
+	errs := make([]error, n)
+	for i := 0; i < n; i++ {
+		wg.Add(1)
+		go func(i int) {
+			defer wg.Done()
+			sem <- struct{}{}
+			defer func() { <-sem }()
+			out, err := runOne(fmt.Sprintf("job:%d", i), i, n, timeout)
+			replies[i], errs[i] = out, err
+		}(i)
+	}
+	wg.Wait()
+	for i := 0; i < n; i++ {
+		if errs[i] != nil {
+			r.Infra("job %d: %v", i, errs[i])
+			continue
+		}
+		var p partial
+		if err := json.Unmarshal(replies[i], &p); err != nil {
+			r.Infra("job %d: bad reply: %v", i, err)
+			continue
+		}
+		r.mu.Lock()
+		for k, v := range p.Counters {
+			r.counters[k] += v
+		}
+		for k, v := range p.Cov {
+			if k == "cap_hit" {
+				continue
+			}
+			r.cov[k] = v
+		}
+		for _, k := range p.Distinct {
+			r.distinct[k] = struct{}{}
+		}
+		for _, s := range p.Samples {
+			if len(r.samples) < r.maxSamples {
+				r.samples = append(r.samples, s)
+			}
+		}
+		for _, a := range p.Assumptions {
+			dup := false
+			for _, b := range r.assumptions {
+				if a == b {
+					dup = true
+				}
+			}
+			if !dup {
+				r.assumptions = append(r.assumptions, a)
+			}
+		}
+		r.mu.Unlock()
+		for _, c := range p.CapNotes {
+			r.NotExhaustive(c)
+		}
+		for _, m := range p.Infra {
+			r.Infra("job %d: %s", i, m)
+		}
+		for _, v := range p.Violations {
+			r.Violation(v.Key, v.Msg, v.Replay, nil)
+		}
+	}
+}
+
+func runOne(part string, i, n int, timeout time.Duration) ([]byte, error) {
+	scratch := os.Getenv("VERIF_SCRATCH")
+	if scratch == "" {
+		scratch = os.TempDir()
+	}
+	dir, err := os.MkdirTemp(scratch, "job-")
+	if err != nil {
+		return nil, err
+	}
+	defer os.RemoveAll(dir)
+	of := filepath.Join(dir, "reply.json")
+	cmd := exec.Command("/bin/sh", "-c", "ulimit -v 16000000; exec \"$0\" \"$@\"", os.Args[0], "-test.run", "^TestCheck$", "-test.timeout", "0")
+	cmd.Env = append(os.Environ(), fmt.Sprintf("VERIF_SHARD=%d/%d", i, n), "VERIF_PART="+part, "VERIF_SHARD_OUT="+of, "VERIF_SCRATCH="+dir)
+	var buf strings.Builder
+	cmd.Stdout = &buf
+	cmd.Stderr = &buf
+	if err := cmd.Start(); err != nil {
+		return nil, err
+	}
+	done := make(chan error, 1)
+	go func() { done <- cmd.Wait() }()
+	select {
+	case err := <-done:
+		if err != nil {
+			return nil, fmt.Errorf("%v\n%s", err, tail(buf.String(), 4000))
+		}
+	case <-time.After(timeout):
+		cmd.Process.Kill()
+		return nil, fmt.Errorf("timeout after %s\n%s", timeout, tail(buf.String(), 2000))
+	}
+	b, err := os.ReadFile(of)
+	if err != nil {
+		return nil, fmt.Errorf("no reply: %v\n%s", err, tail(buf.String(), 4000))
+	}
+	return b, nil
+}
